@@ -28,7 +28,8 @@ STR_EDITS = ["drop_last", "append0", "append_space", "prepend_space", "upper", "
              "double", "empty", "drop_first", "swapcase_first_letter"]
 TIME_EDITS = ["month13", "day32", "hour25", "min60", "noZ", "offset", "space_for_T", "lower", "feb30", "short_year",
               "fraction", "date_only", "trailing_junk", "sec60", "year0", "unpadded", "underscore_for_T", "newline_for_T", "week_date",
-              "dot_seconds", "offset_before_Z", "ordinal_date", "comma_fraction", "fullwidth_digit"]
+              "dot_seconds", "offset_before_Z", "ordinal_date", "comma_fraction", "fullwidth_digit", "offset_nocolon", "offset_neg_zero",
+              "offset_seconds", "no_seconds", "date_Z", "basic_format"]
 INT_EDITS = ["minus1", "plus1", "zero", "neg", "as_float", "as_str", "as_true", "plus_half", "huge", "as_list"]
 LIST_EDITS = ["empty", "dup_first", "append_junk", "append_upper_first", "reverse", "drop_last", "append_none",
               "dup_first_variant", "nest", "dup_last_at_front", "dup_first_adjacent", "dup_middle_at_end"]
@@ -85,7 +86,10 @@ def _edit(node, op):
                 "week_date": "%s-W28-2T%s:%s:%sZ" % (y, h, mi, s), "dot_seconds": "%s-%s-%sT%s:%s.%sZ" % (y, mo, d, h, mi, s),
                 "offset_before_Z": "%s-%s-%sT%s+01:00Z" % (y, mo, d, h), "ordinal_date": "%s-%s%sT%s:%s:%sZZ"[:0] + "%s-194T%s:%s:%s.0Z" % (y, h, mi, s),
                 "comma_fraction": "%s-%s-%sT%s:%s:%s,5Z"[:0] + "%s-%s-%sT%s:%s,%sZ" % (y, mo, d, h, mi, s), "unpadded": "%d-%d-%dT%d:%d:%dZ" % tuple(
-                    int(x) for x in (y, mo, d, h, mi, s)), "fullwidth_digit": f(mo=chr(0xFF10 + int(mo[0])) + mo[1])}.get(e)
+                    int(x) for x in (y, mo, d, h, mi, s)), "fullwidth_digit": f(mo=chr(0xFF10 + int(mo[0])) + mo[1]),
+                "offset_nocolon": f(Z="+0000"), "offset_neg_zero": f(Z="-00:00"), "offset_seconds": f(Z="+00:00:00"),
+                "no_seconds": "%s-%s-%sT%s:%sZ" % (y, mo, d, h, mi), "date_Z": "%s-%s-%sZ" % (y, mo, d),
+                "basic_format": "%s%s%sT%s%s%sZ" % (y, mo, d, h, mi, s)}.get(e)
     if kind == "int" and type(node) is int:
         return {"minus1": node - 1, "plus1": node + 1, "zero": 0, "neg": -node, "as_float": float(node) if abs(node) < 2 ** 53 else None,
                 "as_str": str(node), "as_true": True, "plus_half": node + 0.5 if abs(node) < 2 ** 50 else None,
